@@ -105,7 +105,7 @@ Proof.
   - destruct (step cfg st o) as [st1 r1] eqn:E.
     destruct (step_sim cfg st o st1 r1 Hi Hw E) as (Hi1 & Hs & Hok).
     rewrite Hs. injection H as <- <-. split; [exact Hi1|]. split; [reflexivity|exact Hok].
-  - rewrite abs_length. apply andb_prop in Hw. destruct Hw as [Hw _].
+  - rewrite abs_length.
     destruct (Nat.ltb l (length st)).
     + destruct (exec (step cfg) add_node (@length lnode) l (length st) st (compile (cfg_auth cfg) ts)) as [st1 o1] eqn:E.
       destruct (exec_sim cfg l (length st) _ st st1 o1 Hi Hw E) as (Hi1 & Hs & Hf).
